@@ -12,7 +12,8 @@ def fill(check, pending):
           "Seeded search over lookup histories on a simulated clock and file system: every get_template call of every run "
           "(tens of thousands of runs per quick check, hundreds of thousands thorough) is compared with a reference model that "
           "states the property as sets of admissible outcomes (freshness by recorded mtime vs compile stamp, object identity, "
-          "directory priority, documented exceptions, recovery after failed loads, LRU bound and order), with I/O and clock "
+          "directory priority, documented exceptions, recovery after failed loads, LRU bound and order; files may be symbolic links "
+          "that are re-pointed or whose targets are edited in place), with I/O and clock "
           "faults injected inside the calls. Sampling, not proof: a clean batch is evidence only.",
           "Trusts: the seams reach every clock/file call of the lookup path; the model (models/lookup_model.py); tmpfs gives POSIX "
           "semantics; PYTHONHASHSEED pinned to 0. Sub-second clock phases and auto-tick go beyond the whole-second clock of the "
@@ -24,7 +25,8 @@ def fill(check, pending):
           "death = os._exit inside the call), checks the module path after each death (no file | complete previous | complete new) "
           "and at every seam point - including every executed line of the module-writing functions - as an outside observer, "
           "then requires a fresh process to load and render per the staleness rules; plus failing/short/degraded system calls "
-          "with the process surviving, one process constructing twice around a source change, and 2-8 processes in seeded lock step. "
+          "with the process surviving, one process constructing twice around a source change, and 2-8 processes in seeded lock step; "
+          "the source path may be a symbolic link whose target is edited. "
           "Staleness rules (missing / older / magic / reuse unchanged / module_writer contract) are checked on every construct.",
           "Crash granularity = the file-system calls Mako itself makes (importlib's bytecode writes are not crash points); histories "
           "are sampled, crash points per sampled history are exhaustive; power loss (unsynced data) out of scope.",
@@ -49,7 +51,7 @@ def fill(check, pending):
           "(cap 80/program) is made to raise in turn, under 14 handler placements (none, error_handler accepting/declining, "
           "format_exceptions, caller of render_context, include_error_handler accepting/declining/only on the included/only on "
           "the main template, and SystemExit-like BaseException raises), plus prologue name-lookup failures and failing writes "
-          "of the caller's sink; output after the handler, Context stacks, a following write and render on the same Context, a second render of "
+          "of the caller's sink, and a single def rendered through get_def(name).render() under three placements; output after the handler, Context stacks, a following write and render on the same Context, a second render of "
           "the same Template and exception identity are compared with a reference interpreter that also must match the "
           "fault-free render of every program.",
           "Programs are sampled (seeded), raise points per program are enumerated; asynchronous exceptions between bytecodes "
